@@ -148,7 +148,7 @@ pub trait ContinuousCDF<K: Float, T: Float>: Min<K> + Max<K> {
         let two = K::one() + K::one();
         let mut high = two;
         let mut low = -high;
-        while self.cdf(low) > p {
+        while self.cdf(low) >= p {
             low = low + low;
         }
         while self.cdf(high) < p {
